@@ -454,6 +454,7 @@ func (s *MsgSpec) Build(env *Env) (*mail.Msg, error) {
 	}
 
 	scratch := &bytes.Buffer{}
+	sharedRS := map[string]io.ReadSeeker{}
 	addFile := func(kind string, i int, f FileSpec) error {
 		var fo []mail.FileOption
 		// the name the file is handed over with; OrigName: it is renamed afterwards (WithFileName, or the exported field)
@@ -503,6 +504,19 @@ func (s *MsgSpec) Build(env *Env) (*mail.Msg, error) {
 				err = m.AttachReader(name, rd, fo...)
 			} else {
 				err = m.EmbedReader(name, rd, fo...)
+			}
+		case "readseeker-shared":
+			// ONE io.ReadSeeker of the caller's behind every file of the message that has this source and the same
+			// content (the same image embedded inline and attached as download)
+			rs, ok := sharedRS[string(f.Content)]
+			if !ok {
+				rs = bytes.NewReader(f.Content)
+				sharedRS[string(f.Content)] = rs
+			}
+			if isAtt {
+				m.AttachReadSeeker(name, rs, fo...)
+			} else {
+				m.EmbedReadSeeker(name, rs, fo...)
 			}
 		case "readseeker":
 			var rs io.ReadSeeker = bytes.NewReader(f.Content)
